@@ -97,6 +97,7 @@ type engineState struct {
 	symKeys    bool
 	panicStack string
 	uuidN      int
+	pools      map[*value][]value // sync.Pool model: LIFO free list per pool
 }
 
 func (i *interpreter) noteStub(s string) {
